@@ -193,6 +193,7 @@ package funnel
 // ---- Batch mutators: index preconditions and size effects (C05, C08, C09) ----------
 // "active" = records that are not filtered; all indices refer to active records.
 //verif:def active(b) = len(b.records) - b.filterCount
+//verif:def sameKind(a, b) = a == nil && b == nil || a != nil && b != nil && dyntype(a) == dyntype(b)
 
 //verif:func (*Batch).ActiveRecords(b) (r)
 //verif:requires BLens(b)
@@ -205,7 +206,7 @@ package funnel
 
 //verif:func (*Batch).Filter(b, i, j)
 //verif:requires BLens(b) && 0 <= i && len(j) <= 1 && (len(j) == 0 ==> i < active(b)) && (len(j) == 1 ==> i < j[0] && j[0] <= active(b))
-//verif:ensures[shape] BLens(b) && len(b.records) == old(len(b.records)) && b.filterCount == old(b.filterCount) + ite(len(j) == 1, j[0] - i, 1)
+//verif:ensures[shape] BLens(b) && len(b.records) == old(len(b.records)) && b.filterCount == old(b.filterCount) + ite(len(j) == 1, old(j[0]) - i, 1)
 
 //verif:func (*Batch).Retry(b, i, j)
 //verif:requires BLens(b) && 0 <= i && len(j) <= 1 && (len(j) == 0 ==> i < active(b)) && (len(j) == 1 ==> i < j[0] && j[0] <= active(b))
@@ -224,9 +225,20 @@ package funnel
 // only: every marked range lies inside [0, active).
 //verif:func (*ProcessorTask).Do(t, ctx, b) (err)
 //verif:requires BLens(b)
-//verif:call[ranges-inside-the-batch] (*ProcessorTask).markBatchRecords requires arg1 == b && 0 <= arg2 && arg2 + len(arg3) <= active(b) && BLens(b)
+//verif:call[ranges-inside-the-batch] (*ProcessorTask).markBatchRecords requires arg1 == b && 0 <= arg2 && arg2 + len(arg3) <= active(b) && BLens(b) && forall k in [0, len(arg3)): sameKind(arg3[k], arg3[0])
 //verif:loop 0 invariant BLens(b) && 0 - 1 <= i && i < to && to <= len(recsOut) && to <= active(b)
+//verif:loop 0 invariant (forall k in [i + 1, to): sameKind(recsOut[k], recsOut[i + 1])) && (0 <= i && i + 1 < to ==> sameKind(recsOut[i], recsOut[i + 1]))
 
 //verif:func (*ProcessorTask).markBatchRecords(t, b, from, records)
-//verif:requires BLens(b) && 0 <= from && from + len(records) <= active(b)
-//verif:ensures[shape] BLens(b) && active(b) >= old(active(b)) - len(records)
+//verif:requires BLens(b) && 0 <= from && from + len(records) <= active(b) && forall k in [0, len(records)): sameKind(records[k], records[0])
+//verif:ensures[shape] BLens(b)
+//verif:ensures[active] active(b) >= old(active(b)) - len(records)
+//verif:loop 0 vars j0=rangeindex
+//verif:loop 0 invariant j0 < len(records) && len(recs) == len(records)
+//verif:loop 1 vars j1=rangeindex
+//verif:loop 1 invariant j1 < len(records) && len(errs) == len(records)
+//verif:loop 2 invariant BLens(b) && 0 - 1 <= i && i < len(records) && from + i + 1 <= active(b) && active(b) >= old(active(b)) - (len(records) - 1 - i)
+
+//verif:func (*ProcessorTask).isSameType(t, a, b) (r)
+//verif:ensures[same] r ==> sameKind(a, b)
+//verif:pure
